@@ -108,6 +108,14 @@ fn check(case: &str) -> Option<String> {
                 match e.list_iter() { Some(mut it) => if it.next().is_some() { return Some(format!("{}.list_iter() yields an element", what)); }, None => return Some(format!("{}.list_iter() is None although the empty list is a (proper) list", what)) }
                 if !e.is_list() || e.is_dotted_list() || e.to_vec() != Some(vec![]) || e.to_ref_vec().map(|v| v.len()) != Some(0) { return Some(format!("{}: is_list / to_vec disagree about the empty list", what)); }
             }
+            // lists built from iterators that cannot tell their length in advance (filter, filter_map, from_fn, take_while, flat_map)
+            let evens: Vec<Value> = (1..=6).filter(|n| n % 2 == 0).map(Value::from).collect();
+            if Value::list((1..=6).filter(|n| n % 2 == 0)).to_vec() != Some(evens.clone()) { return Some("Value::list over a filter iterator loses elements".into()); }
+            if Value::append((1..=6).filter_map(|n| if n % 2 == 0 { Some(n) } else { None }), Value::symbol("t")).to_vec() != None || Value::append((1..=6).filter(|n| n % 2 == 0), Value::symbol("t")).list_iter().map(|i| i.count()) != Some(3) { return Some("Value::append over a filter_map iterator loses elements".into()); }
+            let mut k = 0; let from_fn = Value::list(std::iter::from_fn(|| { k += 1; if k <= 3 { Some(Value::cons(Value::symbol("k"), k)) } else { None } }));
+            if from_fn.list_iter().map(|i| i.count()) != Some(3) || from_fn["k"] != 1 { return Some("Value::list over iter::from_fn loses elements".into()); }
+            if Value::list((1..10).take_while(|n| *n < 4)).to_vec().map(|v| v.len()) != Some(3) || Value::list(vec![vec![1, 2], vec![3]].into_iter().flatten()).to_vec().map(|v| v.len()) != Some(3) { return Some("Value::list over take_while / flatten loses elements".into()); }
+            if Value::list(std::iter::empty::<Value>()) != Value::Null || Value::append(std::iter::empty::<Value>(), Value::from(5)) != Value::from(5) { return Some("Value::list / append over an empty iterator".into()); }
             let nested = Value::list(vec![Value::Null, Value::from(1)]);
             if nested.list_iter().and_then(|mut it| it.next().and_then(|e| e.list_iter().map(|mut i| i.next().is_none()))) != Some(true) { return Some("the empty list as a list element has no element iterator".into()); }
             for a in atoms() { if !a.is_null() && !a.is_cons() && a.list_iter().is_some() { return Some(format!("{}.list_iter() is Some for a non-list", a)); } }
